@@ -482,6 +482,34 @@ func runC04(r *core.Run) {
 				})
 		}
 	}
+	// every ordered pair of URL-bearing documents on one instance: a verdict reached for one destination must not be
+	// carried over to the next document's
+	{
+		docs, _, _ := c06URLDocs()
+		for _, cn := range []string{"core", "all+cjk"} {
+			cfg := core.MustCfg(cn)
+			s := r.Sub("url-pairs/"+cn, fmt.Sprintf("every ordered pair of %d URL-bearing documents (harmless, every dangerous scheme, allowed and refused data: media types, other letter cases) converted one after the other on one new instance under %s: no href/src of either output holds a forbidden URL", len(docs), cn))
+			s.Planned = int64(len(docs) * len(docs))
+			s.Bound = fmt.Sprintf("%d × %d ordered pairs", len(docs), len(docs))
+			core.ForEachIndex(len(docs), nw, func(w int) func(int) {
+				return func(i int) {
+					for j := range docs {
+						cv := core.NewConv(cfg)
+						c04Case(s, cv, docs[i], "url-pairs")
+						c04Case(s, cv, docs[j], "url-pairs")
+						s.Evals.Add(1)
+					}
+					s.Distinct(core.Hash(docs[i]))
+					if i%(len(docs)/4+1) == 0 {
+						s.AddSample([]string{core.Q(docs[i]), core.Q(docs[(i*7+1)%len(docs)])})
+					}
+				}
+			}, r.Expired)
+			s.States.Store(s.Evals.Load())
+			s.Transitions.Store(2 * s.Evals.Load())
+			s.Done()
+		}
+	}
 }
 
 func replayC04(r *core.Run, v *core.Violation) {
